@@ -85,7 +85,7 @@ Fixpoint pump (s : bstate) (fs : list frame) : bstate * list frame * option bres
   end.
 
 Definition recv_call (s : bstate) (fs : list frame) : bstate * list frame * option bres :=
-  match reenter toy_decode toy_ports s with
+  match reenter toy_decode s with
   | (s', x :: _) => (s', fs, Some x)
   | (s', []) => pump s' fs
   end.
